@@ -42,6 +42,7 @@ type Engine struct {
 	timeoutS      int
 	seed          int
 	thorough      bool
+	guardCache    []*guardDecl
 }
 
 func (eng *Engine) pos(p token.Pos) string {
